@@ -74,6 +74,8 @@ def first_mismatch(pid, case, go, mo):
             return dict(index=i, op=ops[i] if i < len(ops) else None, go=go[i]["raw"] if i < len(go) else None,
                         model=mo[i]["raw"] if i < len(mo) else None, why="one side stopped early")
         if i < len(ops) and op_kind(ops[i]) in kinds:
+            if go[i]["res"].startswith("panic=") and mo[i]["res"].startswith("panic=") and is_known_k1(case, i, go[i]["res"]):
+                return None   # known finding K1: both sides panic (the model cannot tell the two Go panic sites apart)
             if f(go[i]) != f(mo[i]):
                 return dict(index=i, op=ops[i], go=go[i]["raw"], model=mo[i]["raw"], why="projection differs")
     return None
@@ -235,7 +237,7 @@ def monitor_case(pid, case, go):
             viol.append(dict(index=i, op=op, what="ideal map expects %s, tree returned %s" % (exp, res)))
         if pid in ("C01", "C11") and k == "S" and line["snap"] != prev_snap:
             viol.append(dict(index=i, op=op, what="Search changed the contents"))
-        if pid in ("C08", "C11", "C12"):
+        if pid in ("C08", "C11", "C12") and line["snap"] != "-":
             se = shape_errors(line["snap"], line["chain"], case["order"])
             if pid == "C08" or se:
                 for e in se:
